@@ -1513,10 +1513,13 @@ class LATT(Command):
         super(LATT, self).__init__(shx, spline)
         p, _ = self._parse_line(spline)
         self.centric = False
-        try:
-            self.N = int(p[0])
-        except ValueError:
-            self.N = -1
+        # LATT N[1]
+        self.N = 1
+        if len(p) > 0:
+            try:
+                self.N = int(p[0])
+            except ValueError:
+                self.N = -1
         self.N_str = self.lattint_to_str[abs(self.N)]
         if self.N > 0:  # centrosymmetric space group:
             self.centric = True
